@@ -115,13 +115,22 @@ def gen_base(rng, tier, regime=None, nd=None, with_subs=None, ctype=None):
             vdims = distinct_sample(rng, VDIM_POOL, nvdim)
     elif nvdim == 1 and rng.random() < 0.2:
         vdims = ["s"]
-    return dict(regime=regime, pmin=[S(x) for x in flo], pmax=[S(x) for x in fhi], n=n, dims=dims, units=units,
+    base = dict(regime=regime, pmin=[S(x) for x in flo], pmax=[S(x) for x in fhi], n=n, dims=dims, units=units,
                 subs=subs, nvdim=nvdim, dtype=dtype, vals=[S(v) for v in vals], valid=valid, vdims=vdims,
                 dims_repr=rng.choice(REPRS), units_repr=rng.choice(REPRS), vdims_repr=rng.choice(REPRS),
                 layout_vals=rng.choice(LAYOUTS), layout_valid=rng.choice(LAYOUTS),
                 assign=rng.choice(["ctor", "ctor", "setter"]),
+                # a scalar field given as an array of shape n (no component axis): the library keeps a
+                # view of the caller's array, so its memory layout reaches rotate90
+                squeeze=bool(nvdim == 1 and rng.random() < 0.6),
                 ctype=ctype, sub_ctype=(ctype if (ctype == "float" or rng.random() < 0.6)
                                       else rng.choice(["float", "int", "int64"])))
+    if base["squeeze"]:
+        # only the array setter keeps the caller's buffer (the constructor copies once more)
+        if rng.random() < 0.8:
+            base["assign"] = "setter"
+        base["layout_vals"] = rng.choice(["F", "F", "strided", "revview", "readonly", None])
+    return base
 
 
 def eff_dims(base):
@@ -289,7 +298,7 @@ def generate(rng, tier):
             cases.append(make_case(rng, base, "field", rng.random() < 0.5, a, b, rng.choice([1, -1, 3, 2]),
                                    rng.choice(refkinds), "perm"))
     # rejected calls: equal axes, unknown axis, reference point of the wrong length
-    for _ in range(12 if tier == "quick" else 60):
+    for _ in range(24 if tier == "quick" else 120):
         base = gen_base(rng, tier)
         dims = eff_dims(base)
         a, b = rng.sample(dims, 2)
@@ -374,10 +383,12 @@ def build_field(c):
     valid = np.array(c["valid"], dtype=bool).reshape(*c["n"])
     vm = None if c.get("vmap") is None else {v: t for v, t in c["vmap"]}
     # same values, other memory layout / flags (Fortran order, strided view, read-only, negative strides)
+    if c.get("squeeze") and c["nvdim"] == 1:
+        arr = arr[..., 0]
     arr = relayout(arr, c.get("layout_vals"))
     valid = relayout(valid, c.get("layout_valid"))
     if c.get("assign") == "setter":
-        f = df.Field(m, nvdim=c["nvdim"], value=np.zeros(arr.shape, dtype=dt), vdims=as_repr(c["vdims"], c.get("vdims_repr")),
+        f = df.Field(m, nvdim=c["nvdim"], value=np.zeros((*c["n"], c["nvdim"]), dtype=dt), vdims=as_repr(c["vdims"], c.get("vdims_repr")),
                      vdim_mapping=vm, dtype=dt, unit="A/m")
         f.array = arr
         f.valid = valid
@@ -735,6 +746,8 @@ def stats(records):
         out["k_beyond_2^31"] = out.get("k_beyond_2^31", 0) + int(abs(c["k"]) >= 2 ** 31)
         out["non_integer_k"] = out.get("non_integer_k", 0) + int(bool(c.get("k_bad")))
         out["relayout"] = out.get("relayout", 0) + int(c["level"] == "field" and bool(c.get("layout_vals") or c.get("layout_valid")))
+        out["scalar_without_component_axis"] = out.get("scalar_without_component_axis", 0) + int(
+            c["level"] == "field" and bool(c.get("squeeze")))
         out["array_setter"] = out.get("array_setter", 0) + int(c["level"] == "field" and c.get("assign") == "setter")
         out["integer_corners"] = out.get("integer_corners", 0) + int(c.get("ctype", "float") != "float")
         out["integer_corners_fractional_ref"] = out.get("integer_corners_fractional_ref", 0) + int(
